@@ -1,5 +1,5 @@
 """C17 -- SHA-256 / HMAC-SHA-256."""
-SRCS = ["harness/sha256.cpp", "contracts/sha256.c", "contracts/memory.c"]
+SRCS = ["harness/sha256.cpp", "contracts/sha256.c", "contracts/memory.c", "@TREE@/src/Memory.cpp"]
 TRANSFORM = "Sha256::Private::Transform(ptr_unsigned_int|ptr_const_unsigned_int)"
 WBB = "Sha256::Private::WriteByteBlock(ptr_struct_tag(identifier=tag-Sha256))"
 RESET = "Sha256::reset(this)"
@@ -17,7 +17,7 @@ def U(name, entry, enforce=None, replace=(), reach=(), **kw):
 
 HMAC = "Sha256::hmac(ptr_const_unsigned_char|unsigned_long_int|ptr_const_unsigned_char|unsigned_long_int|ptr_unsigned_char)"
 
-QUICK_GLUE = {(0, 0), (55, 27), (56, 1), (119, 59)}
+QUICK_GLUE = {(0, 0), (55, 27), (56, 1), (64, 10), (119, 59)}
 
 UNITS = [
     U("layout", "h_layout"),
@@ -44,13 +44,20 @@ UNITS = [
       split=[r"loop_invariant", r"loop_decreases", r"precondition", r"postcondition"]),
     U("hmac", "h_hmac", None, replace=[(UPDATE, "c_update_abstract"), (FINALIZE, "c_finalize_abstract")],
       reach=["hmac.long_key", "hmac.block_key", "hmac.short_key"], funcs=["Sha256::hmac"],
-      srcs=SRCS + ["@TREE@/src/Memory.cpp"]),
+      ),
 ] + [
     U("hash_glue.len%d.split%d" % (n, sp), "h_hash_glue", None, replace=[(TRANSFORM, "c_Transform")], reach=["hash_glue.return"],
       defs=["NV_LEN=%d" % n, "NV_SP=%d" % sp], kind="bounded",
       bound="message length == %d bytes, chunked %d + %d, content symbolic" % (n, sp, n - sp),
       funcs=["Sha256::update", "Sha256::finalize"], tier="quick" if (n, sp) in QUICK_GLUE else "thorough")
-    for n in (0, 1, 55, 56, 63, 64, 65, 100, 119) for sp in sorted(set([0, 1 if n else 0, n // 2, n]))
+    for n in (0, 1, 55, 56, 63, 64, 65, 100, 119) for sp in sorted(set([0, 1 if n else 0, 10 if n == 64 else 0, n // 2, n]))
+]
+UNITS += [
+    U("finalize.count_%s" % label, "h_finalize", (FINALIZE, "c_finalize"), replace=[(WBB, "c_WriteByteBlock")],
+      reach=["finalize.two_blocks" if (c & 63) >= 56 else "finalize.one_block"], defs=["NV_CNT=%dul" % c], kind="bounded",
+      bound="count == %d (state and buffer content symbolic); no loop contract, independent of finalize's local names" % c,
+      tier="thorough" if label in ("55", "56") else "quick")
+    for label, c in (("0", 0), ("55", 55), ("56", 56), ("63", 63), ("2p29", (1 << 29) + 5), ("2p32", (1 << 32) - 1), ("2p61", (1 << 61) + 57))
 ]
 TRUSTED = [
     "cbmc 6.11.0 / goto-instrument DFCC contract + loop-contract instrumentation / CaDiCaL",
